@@ -354,3 +354,15 @@ Lemma pav_mean_unique l z : wpos l -> length z = length l -> nondecr z ->
   wsse l z <= wsse l (pav mean_sv l) -> Forall2 Qeq (pav mean_sv l) z.
 Proof. intros Hp L Hz Hle. pose proof (pav_mean_optimal l z Hp L Hz).
   apply (wdist_zero l Hp); [apply pav_length | exact L | lra]. Qed.
+
+(* ---- the library's own block solvers return the observation on a single pair ---- *)
+Lemma solve_single_mean y w : ~ w == 0 -> solve SMean [(y, w)] == y.
+Proof. intro H. unfold solve, wmean. simpl. field. lra. Qed.
+Lemma solve_single_quantile q y w : solve (SQuantile q) [(y, w)] == y.
+Proof. unfold solve, lin_quantile, ys, isort, ssort. simpl map. simpl fold_right. simpl length.
+  change (zq (Z.of_nat 1 - 1)) with 0. assert (E : Qfloor (0 * q) = 0%Z) by (rewrite (Qfloor_comp (0 * q) 0) by ring; reflexivity).
+  rewrite E. simpl. ring. Qed.
+Lemma solve_single_max y w : solve SMax [(y, w)] = y.
+Proof. reflexivity. Qed.
+Lemma solve_single_min y w : solve SMin [(y, w)] = y.
+Proof. reflexivity. Qed.
